@@ -96,7 +96,7 @@ Definition on_stream_unknown (s : shared) : shared * serr :=
 Record fstream := { buf : list ev; remaining : N; eos : bool; rx : list ev }.
 Definition fs0 : fstream := {| buf := []; remaining := 0; eos := false; rx := [] |}.
 
-Inductive tr := TPending | TEnd | TMore | TErr (c : N).
+Inductive tr := TPending | TEnd | TMore | TErr (c : option N).
 Definition try_recv (s : fstream) : tr * fstream :=
   if eos s then (TEnd, s) else
   match rx s with
@@ -118,7 +118,7 @@ Definition decode (b : list ev) : dres * list ev :=
   end.
 
 Inductive pn :=
-| PnPending | PnEnd | PnHeaders (k : hkind) | PnData (total : N) | PnErrQuic (c : N) | PnUnexpectedEnd
+| PnPending | PnEnd | PnHeaders (k : hkind) | PnData (total : N) | PnErrQuic (c : option N) | PnUnexpectedEnd
 | PnUnmodelled | PnPanic (site : N).
 
 Definition decode_or (b : list ev) (e : bool) (q : list ev) (none_case : pn) : pn * fstream :=
@@ -163,7 +163,7 @@ Definition take_chunk (lim : N) (b : list ev) : tk :=
   | _ => TkUnmodelled                        (* frame bytes would be handed out as payload *)
   end.
 
-Inductive pd := PdPending | PdSome (d : bytes) | PdNone | PdErrQuic (c : N) | PdUnexpectedEnd | PdUnmodelled.
+Inductive pd := PdPending | PdSome (d : bytes) | PdNone | PdErrQuic (c : option N) | PdUnexpectedEnd | PdUnmodelled.
 Definition set_buf_rem (b : list ev) (r : N) (s : fstream) : fstream :=
   {| buf := b; remaining := r; eos := eos s; rx := rx s |}.
 Definition poll_data (s : fstream) : pd * fstream :=
@@ -186,9 +186,11 @@ Definition poll_data (s : fstream) : pd * fstream :=
 (* RdTrailers k: `None`, the HEADERS frame that ended the body is kept in RequestStream.trailers *)
 Inductive rd := RdPending | RdSome (d : bytes) | RdNone | RdTrailers (k : hkind) | RdErr (e : serr) | RdPanic (site : N) | RdUnmodelled.
 
-(* HandleFrameStreamErrorOnRequestStream: Quic(StreamTerminated) and UnexpectedEnd *)
-Definition fse_quic (c : N) (sh : shared) : shared * serr :=
-  if fse_quic_via_hq then on_stream_terminated c sh else conn_error_on_stream H3_INTERNAL_ERROR sh.
+(* HandleFrameStreamErrorOnRequestStream: Quic(StreamTerminated | Unknown) and UnexpectedEnd *)
+Definition fse_quic (o : option N) (sh : shared) : shared * serr :=
+  if fse_quic_via_hq then
+    match o with Some c => on_stream_terminated c sh | None => on_stream_unknown sh end
+  else conn_error_on_stream H3_INTERNAL_ERROR sh.
 Definition fse_end (sh : shared) : shared * serr :=
   if fse_end_stores then conn_error_on_stream fse_end_code sh else (sh, SStream fse_end_code).
 
